@@ -520,6 +520,9 @@ func (ip *Interp) mergeStates(c *Cond, t, e *State, nEventsBefore int) *State {
 			m.marks[k] = v
 		}
 	}
+	if e.marks["#seq"] > m.marks["#seq"] {
+		m.marks["#seq"] = e.marks["#seq"]
+	}
 	// events: common prefix + if node
 	m.Events = append([]Event{}, t.Events[:nEventsBefore]...)
 	te, ee := t.Events[nEventsBefore:], e.Events[nEventsBefore:]
@@ -600,4 +603,19 @@ func sortedKeys(m map[string]bool) []string {
 	}
 	sort.Strings(ks)
 	return ks
+}
+
+// ProveSimplified proves f >= 0 after replacing, in f and in every fact, the indicator symbols that the
+// state decides.
+func (st *State) ProveSimplified(f lin.Form) bool {
+	if st.Prove(f) {
+		return true
+	}
+	ip := st.ip
+	g := ip.SimplifyForm(f, st)
+	facts := make([]lin.Fact, 0, len(st.Facts))
+	for _, ft := range st.Facts {
+		facts = append(facts, lin.Fact{F: ip.SimplifyForm(ft.F, st)})
+	}
+	return lin.Prove(g, ip, facts, 3)
 }
